@@ -756,6 +756,17 @@ func (s *Scope) evalCall(e *Expr) *Val {
 			panic(sfail("unknown type %s", want))
 		}
 		return scalar(Eq(a.Tag, c.typeTag(tt)), boolT)
+	case "atloop":
+		// atloop(k, e): the value of e in the state in which loop k was entered
+		k := argv(0)
+		if k.T.C == nil || s.fr == nil {
+			panic(sfail("atloop: constant loop number expected"))
+		}
+		pre, ok := s.fr.topFrame().loopEntry[int(k.T.C.Int64())]
+		if !ok {
+			panic(sfail("atloop: loop %d has not been entered (or is not cut at an invariant)", k.T.C.Int64()))
+		}
+		return s.with(pre).eval(e.Args[1])
 	case "samearray":
 		// samearray(a, b): the same window origin of the same backing array, same capacity
 		a, b := argv(0), argv(1)
